@@ -60,7 +60,8 @@ def sym_value(tp, name: str, idx: tuple = ()):
                           if optional else None)
             rec = sym_record(nonnone, name, idx)
             if optional:
-                raise Unsupported(f'optional record type at {name}')
+                from vc.pyvc.values import SOptRec
+                return SOptRec(z3.Not(_fn(name + '.isNone', idx, z3.BoolSort())), rec)
             return rec
         if len(nonnone) == 1:
             v = sym_value(nonnone[0], name, idx)
